@@ -24,6 +24,10 @@ class Shape:
 
 def grid(T, freq='h', unit='h', tz=None, start=T0):
     eao = lift.import_eao()
+    if isinstance(freq, (tuple, list)):
+        # explicit grid: (freq, start, end, tz) -- irregular steps (DST days, months); T is ignored
+        f, s_, e_, tz_ = freq
+        return eao.assets.Timegrid(pd.Timestamp(s_).to_pydatetime(), pd.Timestamp(e_).to_pydatetime(), freq=f, main_time_unit=unit, timezone=tz_)
     step = pd.Timedelta(freq) if any(ch.isdigit() for ch in freq) else pd.Timedelta(1, freq)
     end = pd.Timestamp(start) + T * step
     return eao.assets.Timegrid(pd.Timestamp(start).to_pydatetime(), end.to_pydatetime(), freq=freq,
